@@ -161,7 +161,7 @@ def _routes_to(facts, ctx, body, target_names, want_roles, inst, props, arg_base
 
 
 @rule('LWW-ROUTE', dict(ABSORB_WHY, **{
-    'C11': 'merge/apply/validate must hand (value, marker) of the incoming register to update in that order',
+    'C11': 'merge/apply/validate must hand (value, marker) of the incoming register to update in that order; an equal marker with a different value is flagged only if every validate path reaches validate_update',
     'C16': 'validate_op must check the op that apply would apply',
     'C17': 'validate_merge must check the state that merge would merge',
 }), floor=4)
@@ -169,7 +169,7 @@ def lww_route(ctx):
     """LWWReg merge/apply -> update(other.val, other.marker); validate_merge/validate_op -> validate_update(same)."""
     facts = ctx.facts
     for trait, name, targets, props in (('CvRDT', 'merge', {'update'}, ['C02', 'C03', 'C11']), ('CmRDT', 'apply', {'update'}, ['C11', 'C03']),
-                                        ('CvRDT', 'validate_merge', {'validate_update'}, ['C17']), ('CmRDT', 'validate_op', {'validate_update'}, ['C16'])):
+                                        ('CvRDT', 'validate_merge', {'validate_update'}, ['C17', 'C11']), ('CmRDT', 'validate_op', {'validate_update'}, ['C16', 'C11'])):
         body = ctx.method(LWWREG, trait, name)
         ok, msg = _routes_to(facts, ctx, body, targets, True, name, props)
         ctx.check(ok, name, body, msg, 'LWWReg::%s %s' % (name, msg), props=props)
